@@ -43,3 +43,58 @@ let stream_of (a : float array) : nat -> float =
 
 let tokens (line : string) : string list =
   List.filter (fun s -> s <> "") (String.split_on_char ' ' (String.trim line))
+
+(* ---------------- token-stream parsers shared by the commands ---------------- *)
+exception Parse of string
+let pop = function [] -> raise (Parse "unexpected end") | t :: r -> (t, r)
+let pop_int ts = let (t, r) = pop ts in (int_of_string t, r)
+let pop_nat ts = let (n, r) = pop_int ts in (nat_of_int n, r)
+let pop_fl ts = let (t, r) = pop ts in (fl_of_string t, r)
+let rec pop_n f n ts = if n <= 0 then ([], ts) else
+  let (a, r) = f ts in let (l, r') = pop_n f (n - 1) r in (a :: l, r')
+let pop_list f ts = let (n, r) = pop_int ts in pop_n f n r
+let pop_flist ts = pop_list pop_fl ts
+let pop_z ts = let (n, r) = pop_int ts in (z_of_int n, r)
+
+let rec pop_term ts : float term * string list =
+  let (k, r) = pop ts in
+  match k with
+  | "c" -> let (v, r) = pop_fl r in (TConst v, r)
+  | "s" -> let (i, r) = pop_nat r in (TSpecies i, r)
+  | "p" -> let (i, r) = pop_nat r in (TParam i, r)
+  | "vol" -> (TVolume, r)
+  | "t" -> (TTime, r)
+  | "sum" -> let (l, r) = pop_list pop_term r in (TSum l, r)
+  | "prod" -> let (l, r) = pop_list pop_term r in (TProd l, r)
+  | "max" -> let (l, r) = pop_list pop_term r in (TMax l, r)
+  | "min" -> let (l, r) = pop_list pop_term r in (TMin l, r)
+  | "pow" -> let (b, r) = pop_term r in let (e, r) = pop_term r in (TPow (b, e), r)
+  | "exp" -> let (a, r) = pop_term r in (TExp a, r)
+  | "log" -> let (a, r) = pop_term r in (TLog a, r)
+  | "step" -> let (a, r) = pop_term r in (TStep a, r)
+  | "abs" -> let (a, r) = pop_term r in (TAbs a, r)
+  | _ -> raise (Parse ("term kind " ^ k))
+
+let pop_prop ts : float prop * string list =
+  let (k, r) = pop ts in
+  match k with
+  | "const" -> let (a, r) = pop_nat r in (PConst a, r)
+  | "uni" -> let (a, r) = pop_nat r in let (b, r) = pop_nat r in (PUni (a, b), r)
+  | "bi" -> let (a, r) = pop_nat r in let (b, r) = pop_nat r in let (c, r) = pop_nat r in (PBi (a, b, c), r)
+  | "hp" | "hn" ->
+    let (a, r) = pop_nat r in let (b, r) = pop_nat r in let (c, r) = pop_nat r in let (d, r) = pop_nat r in
+    ((if k = "hp" then PHillPos (a, b, c, d) else PHillNeg (a, b, c, d)), r)
+  | "php" | "phn" ->
+    let (a, r) = pop_nat r in let (b, r) = pop_nat r in let (c, r) = pop_nat r in let (d, r) = pop_nat r in
+    let (e, r) = pop_nat r in
+    ((if k = "php" then PPropHillPos (a, b, c, d, e) else PPropHillNeg (a, b, c, d, e)), r)
+  | "mass" -> let (a, r) = pop_nat r in let (i, r) = pop_list pop_nat r in let (c, r) = pop_list pop_nat r in (PMass (a, i, c), r)
+  | "madisp" -> let (a, r) = pop_nat r in let (rs, r) = pop_list pop_nat r in (massaction_dispatch a rs, r)
+  | "gen" -> let (t, r) = pop_term r in (PGeneral t, r)
+  | _ -> raise (Parse ("prop kind " ^ k))
+
+let mode_of = function "det" -> Det | "vol" -> Vol | "stoch" -> Stoch | "stochvol" -> StochVol
+  | m -> raise (Parse ("mode " ^ m))
+
+(* species-major integer matrix nsp x nrx *)
+let pop_matrix nsp nrx ts = pop_n (fun ts -> pop_n pop_z nrx ts) nsp ts
